@@ -3,6 +3,7 @@ package extract
 import (
 	"fmt"
 	"go/ast"
+	"go/constant"
 	"go/printer"
 	"go/token"
 	"regexp"
@@ -13,12 +14,22 @@ import (
 
 // Versions: the table-like parts of the version schemes of property C12.
 //
-//   - java/maven_version.go: the `qualifiers` map and `unknownQualifier`
-//     (the Maven model reads them; its theorems do not depend on the values);
-//   - pkg/pep440/version.go: the alternatives of the pre/post/dev label groups
-//     of the pattern in their written order (leftmost-first alternation), the
-//     label normalisation switch of Parse, the label -> slot switch and the
-//     slot constants of Version().
+//   - package java: the `qualifiers` map and `unknownQualifier` (the Maven model
+//     reads them; its theorems do not depend on the values): looked up in the
+//     whole package, entries folded constants, the map may be a literal or be
+//     filled by straight-line assignments in init / a builder function;
+//   - pkg/pep440: the pattern (the constant expression `pattern` is compiled
+//     from, in a var initialiser or in init) and the alternatives of its
+//     pre/post/dev label groups in written order (leftmost-first alternation);
+//     EVALUATED through the exported API (probe go/cmd/rxprobe/versions): the
+//     label normalisation of Parse on every alternative of the pattern, the slot
+//     indices of Version() and the label -> slot value table;
+//   - ruby `anchoredVersion`, gobin `versionRegex` (regexp sources as above) and
+//     the integer literals of gobin's fitInt32 (named constants count at their use);
+//   - whether the ordering methods of version.go and toolkit/types/version.go
+//     have the same text (methods looked up in the whole package).
+//
+// See design/EXTRACT.md.
 func init() {
 	Register(Gen{Name: "Versions", Run: genVersions})
 }
@@ -53,56 +64,18 @@ func strLit(e ast.Expr) (string, bool) {
 func genVersions(repo string) (string, error) {
 	out := Header("Versions", "java/maven_version.go", "pkg/pep440/version.go", "ruby/version.go")
 
-	// ---- Maven
-	_, mf, err := ParseFile(repo, "java/maven_version.go")
+	// ---- Maven: the `qualifiers` map and unknownQualifier, anywhere in package java
+	jp, err := rxLoadPkg(repo, "java")
 	if err != nil {
 		return "", err
 	}
-	quals := map[string]string{}
-	unknown := int64(-1)
-	for _, d := range mf.Decls {
-		gd, ok := d.(*ast.GenDecl)
-		if !ok {
-			continue
-		}
-		for _, sp := range gd.Specs {
-			vs, ok := sp.(*ast.ValueSpec)
-			if !ok {
-				continue
-			}
-			for i, n := range vs.Names {
-				if i >= len(vs.Values) {
-					continue
-				}
-				switch n.Name {
-				case "qualifiers":
-					cl, ok := vs.Values[i].(*ast.CompositeLit)
-					if !ok {
-						return "", fmt.Errorf("maven qualifiers is not a composite literal")
-					}
-					for _, e := range cl.Elts {
-						kv, ok := e.(*ast.KeyValueExpr)
-						if !ok {
-							return "", fmt.Errorf("maven qualifiers: element is not key: value")
-						}
-						k, ok1 := strLit(kv.Key)
-						v, ok2 := strLit(kv.Value)
-						if !ok1 || !ok2 {
-							return "", fmt.Errorf("maven qualifiers: non-literal entry")
-						}
-						if _, dup := quals[k]; dup {
-							return "", fmt.Errorf("maven qualifiers: duplicate key %q", k)
-						}
-						quals[k] = v
-					}
-				case "unknownQualifier":
-					unknown, err = IntLit(vs.Values[i])
-					if err != nil {
-						return "", fmt.Errorf("unknownQualifier: %w", err)
-					}
-				}
-			}
-		}
+	quals, err := rxStringMap(jp, "qualifiers")
+	if err != nil {
+		return "", fmt.Errorf("maven qualifiers: %w", err)
+	}
+	unknown, err := jp.IntConst("unknownQualifier")
+	if err != nil {
+		return "", fmt.Errorf("unknownQualifier: %w", err)
 	}
 	if len(quals) == 0 || unknown < 0 {
 		return "", fmt.Errorf("maven qualifiers table or unknownQualifier not found")
@@ -125,25 +98,15 @@ func genVersions(repo string) (string, error) {
 	out += fmt.Sprintf("def mavenUnknownQualifier : Nat := %d\n\n", unknown)
 
 	// ---- pep440
-	_, pf, err := ParseFile(repo, "pkg/pep440/version.go")
+	pp, err := rxLoadPkg(repo, "pkg/pep440")
 	if err != nil {
 		return "", err
 	}
-	// the pattern: concatenated string literals inside init()
-	var pattern strings.Builder
-	initFn := FuncDecl(pf, "", "init")
-	if initFn == nil {
-		return "", fmt.Errorf("pep440: init not found")
+	// the pattern: the constant expression `pattern` is compiled from (var initialiser or init)
+	pat, err := regexpSource(pp, "pattern")
+	if err != nil {
+		return "", fmt.Errorf("pep440: %w", err)
 	}
-	ast.Inspect(initFn, func(n ast.Node) bool {
-		if s, ok := n.(ast.Expr); ok {
-			if v, ok := strLit(s); ok {
-				pattern.WriteString(v)
-			}
-		}
-		return true
-	})
-	pat := pattern.String()
 	group := func(re string) ([]string, error) {
 		m := regexp.MustCompile(re).FindStringSubmatch(pat)
 		if m == nil {
@@ -175,38 +138,40 @@ func genVersions(repo string) (string, error) {
 	// whole pattern, so that any other edit of it is noticed
 	out += fmt.Sprintf("def pepPattern : String := %s\n\n", LeanString(pat))
 
-	// label normalisation: case "a", "alpha": v.Pre.Label = "a"
-	norm := map[string]string{}
-	parseFn := FuncDecl(pf, "", "Parse")
-	if parseFn == nil {
-		return "", fmt.Errorf("pep440: Parse not found")
+	// label normalisation, slot layout and label values: evaluated through the
+	// exported API (probe "versions"); candidate canonical labels = the pattern's
+	// alternatives ∪ the string literals of the package ∪ the snapshot's labels
+	labels := rxSet{}
+	labels.add(pre...)
+	labels.add(rxSnapPepLabels...)
+	for _, l := range pp.StringLits() {
+		if len(l) <= 16 {
+			labels.add(l, rxASCIIUpper(l))
+		}
 	}
-	ast.Inspect(parseFn, func(n ast.Node) bool {
-		cc, ok := n.(*ast.CaseClause)
-		if !ok || len(cc.Body) != 1 {
-			return true
+	labels.add("", "x", "rx-probe")
+	var ans struct {
+		Norm []struct {
+			In, Out string
+			OK      bool
 		}
-		as, ok := cc.Body[0].(*ast.AssignStmt)
-		if !ok || len(as.Lhs) != 1 || len(as.Rhs) != 1 {
-			return true
+		Slots     map[string]int
+		LabelSlot []struct {
+			Label string
+			Value int
 		}
-		sel, ok := as.Lhs[0].(*ast.SelectorExpr)
-		if !ok || sel.Sel.Name != "Label" {
-			return true
+	}
+	if err := rxProbe(repo, "versions", map[string]any{"preAlts": pre, "labels": labels.sorted()}, &ans); err != nil {
+		return "", err
+	}
+	norm := map[string]string{}
+	for _, n := range ans.Norm {
+		if n.OK {
+			norm[n.In] = n.Out
 		}
-		val, ok := strLit(as.Rhs[0])
-		if !ok {
-			return true
-		}
-		for _, e := range cc.List {
-			if k, ok := strLit(e); ok {
-				norm[k] = val
-			}
-		}
-		return true
-	})
+	}
 	if len(norm) == 0 {
-		return "", fmt.Errorf("pep440: label normalisation switch not recognised")
+		return "", fmt.Errorf("pep440: Parse accepts none of the pattern's pre-release labels")
 	}
 	nk := make([]string, 0, len(norm))
 	for k := range norm {
@@ -224,51 +189,20 @@ func genVersions(repo string) (string, error) {
 	}
 	out += "]\n\n"
 
-	// Version(): slot constants and label -> slot value
-	verFn := FuncDecl(pf, "Version", "Version")
-	if verFn == nil {
-		return "", fmt.Errorf("pep440: (*Version).Version not found")
-	}
-	consts := map[string]int64{}
-	slots := map[string]int64{}
-	ast.Inspect(verFn, func(n ast.Node) bool {
-		switch x := n.(type) {
-		case *ast.ValueSpec:
-			for i, nm := range x.Names {
-				if i < len(x.Values) {
-					if v, err := IntLit(x.Values[i]); err == nil {
-						consts[nm.Name] = v
-					}
-				}
-			}
-		case *ast.CaseClause:
-			if len(x.Body) != 1 || len(x.List) != 1 {
-				return true
-			}
-			k, ok := strLit(x.List[0])
-			if !ok {
-				return true
-			}
-			as, ok := x.Body[0].(*ast.AssignStmt)
-			if !ok || len(as.Rhs) != 1 {
-				return true
-			}
-			if v, err := IntLit(as.Rhs[0]); err == nil {
-				slots[k] = v
-			}
-		}
-		return true
-	})
 	for _, want := range []string{"epoch", "rel", "preL", "preN", "post", "dev"} {
-		if _, ok := consts[want]; !ok {
-			return "", fmt.Errorf("pep440 Version(): slot constant %s not found", want)
+		if _, ok := ans.Slots[want]; !ok {
+			return "", fmt.Errorf("pep440 Version(): slot %s not determined", want)
 		}
-	}
-	if len(slots) == 0 {
-		return "", fmt.Errorf("pep440 Version(): label switch not recognised")
 	}
 	out += "/-- Version(): slot indices epoch, rel, preL, preN, post, dev. -/\n"
-	out += fmt.Sprintf("def pepSlots : List Nat := [%d, %d, %d, %d, %d, %d]\n\n", consts["epoch"], consts["rel"], consts["preL"], consts["preN"], consts["post"], consts["dev"])
+	out += fmt.Sprintf("def pepSlots : List Nat := [%d, %d, %d, %d, %d, %d]\n\n", ans.Slots["epoch"], ans.Slots["rel"], ans.Slots["preL"], ans.Slots["preN"], ans.Slots["post"], ans.Slots["dev"])
+	slots := map[string]int{}
+	for _, l := range ans.LabelSlot {
+		slots[l.Label] = l.Value
+	}
+	if len(slots) == 0 {
+		return "", fmt.Errorf("pep440 Version(): no label has a slot value")
+	}
 	sk := make([]string, 0, len(slots))
 	for k := range slots {
 		sk = append(sk, k)
@@ -286,102 +220,59 @@ func genVersions(repo string) (string, error) {
 	out += "]\n\n"
 
 	// ---- ruby: the anchored pattern the gem recogniser stands for
-	_, rf, err := ParseFile(repo, "ruby/version.go")
+	rp, err := rxLoadPkg(repo, "ruby")
 	if err != nil {
 		return "", err
 	}
-	gemPat := ""
-	ast.Inspect(rf, func(n ast.Node) bool {
-		vs, ok := n.(*ast.ValueSpec)
-		if !ok {
-			return true
-		}
-		for i, nm := range vs.Names {
-			if nm.Name != "anchoredVersion" || i >= len(vs.Values) {
-				continue
-			}
-			if call, ok := vs.Values[i].(*ast.CallExpr); ok && len(call.Args) == 1 {
-				if v, ok := strLit(call.Args[0]); ok {
-					gemPat = v
-				}
-			}
-		}
-		return true
-	})
-	if gemPat == "" {
-		return "", fmt.Errorf("ruby: anchoredVersion pattern not found")
+	gemPat, err := regexpSource(rp, "anchoredVersion")
+	if err != nil {
+		return "", fmt.Errorf("ruby: %w", err)
 	}
 	out += fmt.Sprintf("/-- ruby/version.go `anchoredVersion`. -/\ndef gemPattern : String := %s\n\n", LeanString(gemPat))
 
 	// ---- gobin: the pattern of ParseVersion and the digit limit of fitInt32
-	_, gf, err := ParseFile(repo, "gobin/exe.go")
+	gp, err := rxLoadPkg(repo, "gobin")
 	if err != nil {
 		return "", err
 	}
-	gobinPat := ""
-	ast.Inspect(gf, func(n ast.Node) bool {
-		vs, ok := n.(*ast.ValueSpec)
-		if !ok {
-			return true
-		}
-		for i, nm := range vs.Names {
-			if nm.Name != "versionRegex" || i >= len(vs.Values) {
-				continue
-			}
-			if call, ok := vs.Values[i].(*ast.CallExpr); ok && len(call.Args) == 1 {
-				if v, ok := strLit(call.Args[0]); ok {
-					gobinPat = v
-				}
-			}
-		}
-		return true
-	})
-	if gobinPat == "" {
-		return "", fmt.Errorf("gobin: versionRegex pattern not found")
+	gobinPat, err := regexpSource(gp, "versionRegex")
+	if err != nil {
+		return "", fmt.Errorf("gobin: %w", err)
 	}
 	out += fmt.Sprintf("/-- gobin/exe.go `versionRegex`. -/\ndef gobinPattern : String := %s\n\n", LeanString(gobinPat))
-	fit := FuncDecl(gf, "", "fitInt32")
+	fit := gp.Func("", "fitInt32")
 	if fit == nil {
 		return "", fmt.Errorf("gobin: fitInt32 not found")
 	}
-	var fitLits []int64
-	ast.Inspect(fit, func(n ast.Node) bool {
-		if bl, ok := n.(*ast.BasicLit); ok && bl.Kind == token.INT {
-			if v, err := IntLit(bl); err == nil {
-				fitLits = append(fitLits, v)
-			}
-		}
-		return true
-	})
-	out += fmt.Sprintf("/-- gobin/exe.go `fitInt32`: its integer literals in order (length limit, slice bound, zero, base, bit size). -/\ndef gobinFitLits : List Nat := %s\n", LeanNatList(fitLits))
+	out += fmt.Sprintf("/-- gobin/exe.go `fitInt32`: its integer literals in order (length limit, slice bound, zero, base, bit size). -/\ndef gobinFitLits : List Nat := %s\n", LeanNatList(rxIntLitsInOrder(gp, fit)))
 
 	// ---- toolkit/types/version.go is a copy of version.go: the ordering methods have the same text
-	rfs, rootF, err := ParseFile(repo, "version.go")
+	rootP, err := rxLoadPkg(repo, ".")
 	if err != nil {
 		return "", err
 	}
-	tfs, tkF, err := ParseFile(repo, "toolkit/types/version.go")
+	tkP, err := rxLoadPkg(repo, "toolkit/types")
 	if err != nil {
 		return "", err
 	}
-	body := func(fs *token.FileSet, f *ast.File, recv, name string) (string, error) {
-		fd := FuncDecl(f, recv, name)
+	body := func(p *rxPkg, recv, name string) (string, error) {
+		fd := p.Func(recv, name)
 		if fd == nil || fd.Body == nil {
-			return "", fmt.Errorf("version copy: (%s).%s not found", recv, name)
+			return "", fmt.Errorf("version copy: (%s).%s not found in %s", recv, name, p.dir)
 		}
 		var b strings.Builder
-		if err := printer.Fprint(&b, fs, fd.Body); err != nil {
+		if err := printer.Fprint(&b, p.fset, fd.Body); err != nil {
 			return "", err
 		}
 		return b.String(), nil
 	}
 	var same []string
 	for _, m := range [][2]string{{"Version", "Compare"}, {"Range", "Contains"}, {"Version", "String"}} {
-		a, err := body(rfs, rootF, m[0], m[1])
+		a, err := body(rootP, m[0], m[1])
 		if err != nil {
 			return "", err
 		}
-		b, err := body(tfs, tkF, m[0], m[1])
+		b, err := body(tkP, m[0], m[1])
 		if err != nil {
 			return "", err
 		}
@@ -390,4 +281,131 @@ func genVersions(repo string) (string, error) {
 	out += "\n/-- version.go against toolkit/types/version.go: is the body of the method the same text? -/\n"
 	out += "def toolkitCopySame : List (String × Bool) := [" + strings.Join(same, ", ") + "]\n"
 	return out + Footer("Versions"), nil
+}
+
+// rxStringMap reads the package-level `name = map[string]string{...}` (keys and
+// values folded constants), or a map filled by straight-line `name[k] = v`
+// assignments in one function of the package (init or a builder).
+func rxStringMap(p *rxPkg, name string) (map[string]string, error) {
+	d := p.Decl(name)
+	if d == nil {
+		return nil, fmt.Errorf("%s not found in %s", name, p.dir)
+	}
+	out := map[string]string{}
+	sc := p.Scope(d.file)
+	add := func(sc *rxScope, k, v ast.Expr) error {
+		ks, ok1 := sc.Str(k)
+		vs, ok2 := sc.Str(v)
+		if !ok1 || !ok2 {
+			return fmt.Errorf("%s: entry that is not a pair of string constants", name)
+		}
+		if _, dup := out[ks]; dup {
+			return fmt.Errorf("%s: duplicate key %q", name, ks)
+		}
+		out[ks] = vs
+		return nil
+	}
+	if cl, ok := d.value.(*ast.CompositeLit); ok {
+		for _, e := range cl.Elts {
+			kv, ok := e.(*ast.KeyValueExpr)
+			if !ok {
+				return nil, fmt.Errorf("%s: element is not key: value", name)
+			}
+			if err := add(sc, kv.Key, kv.Value); err != nil {
+				return nil, err
+			}
+		}
+	} else if d.value != nil {
+		// make(map[string]string[, n]) or a call of a builder function: entries come from assignments
+		if _, ok := d.value.(*ast.CallExpr); !ok {
+			return nil, fmt.Errorf("%s is neither a map literal nor built by a call", name)
+		}
+	}
+	// straight-line assignments name[k] = v (or, inside a builder that returns the map, m[k] = v)
+	for _, f := range p.files {
+		for _, dd := range f.Decls {
+			fd, ok := dd.(*ast.FuncDecl)
+			if !ok || fd.Body == nil {
+				continue
+			}
+			target := name
+			if call, ok := d.value.(*ast.CallExpr); ok {
+				if id, ok := call.Fun.(*ast.Ident); ok && id.Name == fd.Name.Name {
+					// builder: the returned local
+					for _, st := range fd.Body.List {
+						if r, ok := st.(*ast.ReturnStmt); ok && len(r.Results) == 1 {
+							if rid, ok := r.Results[0].(*ast.Ident); ok {
+								target = rid.Name
+							}
+						}
+					}
+				}
+			}
+			fsc := p.ScopeOf(fd)
+			var ferr error
+			for _, st := range fd.Body.List {
+				as, ok := st.(*ast.AssignStmt)
+				if !ok || len(as.Lhs) != 1 || len(as.Rhs) != 1 || as.Tok != token.ASSIGN {
+					continue
+				}
+				ix, ok := as.Lhs[0].(*ast.IndexExpr)
+				if !ok {
+					continue
+				}
+				if id, ok := ix.X.(*ast.Ident); !ok || id.Name != target {
+					continue
+				}
+				if target == name && fd.Name.Name != "init" {
+					return nil, fmt.Errorf("%s is assigned to in %s: not a constant table", name, fd.Name.Name)
+				}
+				if err := add(fsc, ix.Index, as.Rhs[0]); err != nil {
+					ferr = err
+				}
+			}
+			if ferr != nil {
+				return nil, ferr
+			}
+		}
+	}
+	return out, nil
+}
+
+// rxIntLitsInOrder: the integer literals of a function body in source order;
+// a use of a named integer constant (local or package-level) counts as its value
+// at the place of use, and the literal in the constant's own declaration is skipped.
+func rxIntLitsInOrder(p *rxPkg, fd *ast.FuncDecl) []int64 {
+	sc := p.ScopeOf(fd)
+	var out []int64
+	ast.Inspect(fd.Body, func(n ast.Node) bool {
+		switch x := n.(type) {
+		case *ast.DeclStmt:
+			if gd, ok := x.Decl.(*ast.GenDecl); ok && gd.Tok == token.CONST {
+				return false
+			}
+		case *ast.BasicLit:
+			if x.Kind == token.INT {
+				if v, err := IntLit(x); err == nil {
+					out = append(out, v)
+				}
+			}
+		case *ast.Ident:
+			if x.Name == "nil" || x.Name == "true" || x.Name == "false" || x.Name == "iota" {
+				return true
+			}
+			_, isLocalConst := sc.local[x.Name]
+			isPkgConst := false
+			if d := p.Decl(x.Name); d != nil && d.decl.Tok == token.CONST && (x.Obj == nil || x.Obj.Kind == ast.Con) {
+				isPkgConst = true
+			}
+			if (isLocalConst && x.Obj != nil && x.Obj.Kind == ast.Con) || isPkgConst {
+				if v, ok := sc.Const(x); ok && v.Kind() == constant.Int {
+					if n, exact := constant.Int64Val(v); exact {
+						out = append(out, n)
+					}
+				}
+			}
+		}
+		return true
+	})
+	return out
 }
